@@ -22,7 +22,7 @@ ASSUMPTIONS = [
     "verdict theorem are those of the same id",
 ]
 
-TRIGGERS = {1: "C19.float_tally_mismatch", 2: "C19.missed_scan_overwrites_byzantine", 3: "C19.height_le_votes_diff"}
+TRIGGERS = {1: "C19.float_tally_mismatch"}
 CODES = {
     1: "an account that is not an active validator opened an allegation",
     2: "a vote was accepted from a non-active or frozen validator, or a second vote of the same validator",
@@ -34,6 +34,7 @@ CODES = {
     8: "the bounty credited differs from the configured cut of the penalties or exceeds them",
     9: "a frozen byzantine-fault record changed although the validator was not released",
     10: "a frozen validator is still active after EndBlock",
+    11: "a transaction that names a validator but is not signed by it was executed",
 }
 CLASSES = {1: "transaction ok/fail", 2: "requests", 3: "tracker", 4: "suspicious-validator records", 5: "validator status records",
            6: "stake totals", 7: "bounty balance", 8: "verdict events"}
@@ -106,16 +107,21 @@ def run(ctx):
     except Broken as b:
         broken = b
     vh = common.build_harness()
-    # (C) witness replay: the recorded findings must still behave as recorded (monitor fires with the trigger)
+    # (C) witness replay: a known finding must still reproduce (monitor fires with its trigger); the replay of a
+    # fixed finding is a corpus case on which the property must HOLD (any monitor hit there is an ordinary VIOLATION)
     replays = sorted(glob.glob(os.path.join(common.VERIF, "findings", "C19_*.json")))
     wit = {}
+    status = {f["trigger"]: f["status"] for f in common.load_findings() if f["property"] == "C19"}
     for f in replays:
         rp = json.load(open(f))
         tmp = os.path.join(ctx.scratch, "w_" + os.path.basename(f))
         json.dump(rp["scripts"], open(tmp, "w"))
         r_, c_, mm_, mv_, _ = evaluate(ctx, vh, ["-script", tmp], sub="w_" + os.path.basename(f)[:-5])
-        trigs = sorted({TRIGGERS.get(v[3], "none") for v in mv_})
-        wit[rp["trigger"]] = "reproduces" if rp["trigger"] in trigs else "does not reproduce (repaired?)"
+        if status.get(rp["trigger"]) == "fixed":
+            wit[rp["trigger"]] = "fixed: property holds on the replay" if not mv_ and not mm_ else "fixed finding FAILS AGAIN"
+        else:
+            trigs = sorted({TRIGGERS.get(v[3], "none") for v in mv_})
+            wit[rp["trigger"]] = "reproduces" if rp["trigger"] in trigs else "does not reproduce (repaired?)"
         judge(ctx, r_, c_, mm_, mv_)
     if ctx.tier == "thorough":
         args = ["-seed", str(ctx.seed), "-n", "1000", "-blocks", "30", "-per", "20"]
